@@ -348,6 +348,9 @@ func (e *SupportedPointsExtension) Read(b []byte) (int, error) {
 	if len(b) < e.Len() {
 		return 0, io.ErrShortBuffer
 	}
+	if len(e.SupportedPoints) > 255 {
+		return 0, errors.New("too many supported point formats")
+	}
 	// http://tools.ietf.org/html/rfc4492#section-5.5.2
 	b[0] = byte(extensionSupportedPoints >> 8)
 	b[1] = byte(extensionSupportedPoints)
@@ -637,6 +640,9 @@ func (e *ALPNExtension) Read(b []byte) (int, error) {
 	stringsLength := 0
 	for _, s := range e.AlpnProtocols {
 		l := len(s)
+		if l > 255 {
+			return 0, errors.New("ALPN protocol name longer than 255 bytes")
+		}
 		b[0] = byte(l)
 		copy(b[1:], s)
 		b = b[1+l:]
